@@ -89,7 +89,7 @@ class TransactionContextDecorator:
     def __call__(self, func: DecoratedFunc) -> DecoratedFunc:
         @wraps(func)
         async def wrapper(*args, **kwargs):
-            async with self:
+            async with TransactionContextDecorator(self._mode, self._timeout):
                 return await func(*args, **kwargs)
 
         return wrapper  # type: ignore[return-value]
